@@ -5,6 +5,93 @@ use std::hash::Hash;
 
 use indexmap::{map::Entry, IndexMap, IndexSet};
 
+/// Verification hook H3 (only with `--cfg capy_verif`): a thread-local log of the
+/// operations performed on any `TopoSort` of this thread, so an external harness can
+/// record the exact operation sequence a client issues and replay it elsewhere.
+///
+/// With the cfg off nothing in this crate changes.
+///
+/// Every logged method pushes ONE entry as its very first action (before it does
+/// anything else), then runs its unchanged body.  Methods that call other logged
+/// methods therefore produce nested entries *after* their own.  Exact sequences
+/// (`X?` = only under the stated condition, `*` = repeated):
+///
+/// ```text
+/// len               -> len
+/// is_empty          -> is_empty
+/// clear             -> clear
+/// insert_dep(p,c)   -> insert_dep[p,c]
+/// insert(i)         -> insert[i]
+/// extend(is)        -> extend[is...]
+/// remove(c)         -> remove[c]
+/// peek_all          -> peek_all, is_empty             (always exactly one is_empty)
+/// peek              -> peek, is_empty?                (is_empty iff no item has 0 open deps)
+/// in_cycle          -> in_cycle, is_empty
+/// peek_cyclic       -> peek_cyclic, in_cycle, is_empty
+/// peek_all_cyclic   -> peek_all_cyclic, in_cycle, is_empty
+/// pop_all_cyclic    -> pop_all_cyclic, in_cycle, is_empty
+/// insert_deps(p,cs) -> insert_dep[p,c]*               (no own entry; one per child, in order)
+/// pop               -> peek, is_empty?, remove[k]?    (no own entry; remove iff peek gave Ok(k))
+/// pop_all           -> peek_all, is_empty, remove[k]* (no own entry; one remove per leaf, in order)
+/// pop_cyclic        -> in_cycle, is_empty, remove[k]? (no own entry; remove iff in_cycle)
+/// ```
+///
+/// `args` are per-`TopoSort`-instance ids: items are numbered 0,1,2,... in order of
+/// first appearance as an argument of `insert_dep` (parent first, then child),
+/// `insert`, `extend` or `remove` on that instance (a clone inherits the numbering of
+/// its source).  `len_before` is `self.top.len()` at entry of the method.
+#[cfg(capy_verif)]
+pub mod verif {
+    use std::cell::{Cell, RefCell};
+
+    #[derive(Debug, Clone, PartialEq, Eq)]
+    pub struct LoggedOp {
+        pub op: &'static str,
+        pub args: Vec<usize>,
+        pub len_before: usize,
+    }
+
+    thread_local! {
+        static LOG: RefCell<Option<Vec<LoggedOp>>> = const { RefCell::new(None) };
+        static LIMIT: Cell<usize> = const { Cell::new(usize::MAX) };
+    }
+
+    /// Starts (or restarts, with an empty log) logging on this thread.
+    pub fn start() {
+        start_with_limit(usize::MAX);
+    }
+
+    /// Like `start`, but the operation that would push entry number `max_ops + 1` panics
+    /// instead (before it touches the `TopoSort`).  This is a cooperative watchdog for a
+    /// harness whose client may be stuck in a scheduling loop that never empties the
+    /// `TopoSort`; the `max_ops` entries logged so far can still be `take`n.
+    pub fn start_with_limit(max_ops: usize) {
+        LIMIT.with(|l| l.set(max_ops));
+        LOG.with(|l| *l.borrow_mut() = Some(Vec::new()));
+    }
+
+    /// Stops logging on this thread and returns what was logged (empty if not started).
+    pub fn take() -> Vec<LoggedOp> {
+        LOG.with(|l| l.borrow_mut().take()).unwrap_or_default()
+    }
+
+    /// No-op unless `start` was called on this thread.
+    pub(crate) fn log(op: &'static str, args: Vec<usize>, len_before: usize) {
+        LOG.with(|l| {
+            if let Some(log) = l.borrow_mut().as_mut() {
+                if log.len() >= LIMIT.with(|m| m.get()) {
+                    panic!("capy_verif: topo op limit exceeded at `{op}`");
+                }
+                log.push(LoggedOp {
+                    op,
+                    args,
+                    len_before,
+                });
+            }
+        });
+    }
+}
+
 #[derive(Debug)]
 pub struct CycleErr;
 
@@ -26,17 +113,27 @@ impl<T: Hash + Eq> Dependencies<T> {
 #[derive(Debug, Clone)]
 pub struct TopoSort<T> {
     top: IndexMap<T, Dependencies<T>>,
+    /// numbers items by first appearance; only used for the verification log (hook H3)
+    #[cfg(capy_verif)]
+    ids: IndexSet<T>,
 }
 
 impl<T> Default for TopoSort<T> {
     fn default() -> Self {
         TopoSort {
             top: IndexMap::default(),
+            #[cfg(capy_verif)]
+            ids: IndexSet::default(),
         }
     }
 }
 
 impl<T: Hash + Eq + Clone> TopoSort<T> {
+    #[cfg(capy_verif)]
+    fn verif_id(&mut self, item: &T) -> usize {
+        self.ids.insert_full(item.clone()).0
+    }
+
     /// Creates new empty TopoSort
     #[inline]
     pub fn new() -> Self {
@@ -45,11 +142,15 @@ impl<T: Hash + Eq + Clone> TopoSort<T> {
 
     #[inline]
     pub fn len(&self) -> usize {
+        #[cfg(capy_verif)]
+        verif::log("len", Vec::new(), self.top.len());
         self.top.len()
     }
 
     #[inline]
     pub fn is_empty(&self) -> bool {
+        #[cfg(capy_verif)]
+        verif::log("is_empty", Vec::new(), self.top.len());
         self.top.is_empty()
     }
 
@@ -68,6 +169,11 @@ impl<T: Hash + Eq + Clone> TopoSort<T> {
     {
         let parent = parent.into();
         let child = child.into();
+        #[cfg(capy_verif)]
+        {
+            let args = vec![self.verif_id(&parent), self.verif_id(&child)];
+            verif::log("insert_dep", args, self.top.len());
+        }
 
         match self.top.entry(child) {
             Entry::Vacant(e) => {
@@ -108,6 +214,13 @@ impl<T: Hash + Eq + Clone> TopoSort<T> {
     where
         U: Into<T>,
     {
+        #[cfg(capy_verif)]
+        let item: T = item.into();
+        #[cfg(capy_verif)]
+        {
+            let args = vec![self.verif_id(&item)];
+            verif::log("insert", args, self.top.len());
+        }
         match self.top.entry(item.into()) {
             Entry::Vacant(e) => {
                 let dep = Dependencies::<T>::new();
@@ -123,6 +236,13 @@ impl<T: Hash + Eq + Clone> TopoSort<T> {
         I: IntoIterator<Item = U>,
         U: Into<T>,
     {
+        #[cfg(capy_verif)]
+        let items: Vec<T> = items.into_iter().map(Into::into).collect();
+        #[cfg(capy_verif)]
+        {
+            let args = items.iter().map(|item| self.verif_id(item)).collect();
+            verif::log("extend", args, self.top.len());
+        }
         self.top.extend(
             items
                 .into_iter()
@@ -153,6 +273,8 @@ impl<T: Hash + Eq + Clone> TopoSort<T> {
 
     /// Returns a reference to the first item with no dependencies.
     pub fn peek(&self) -> Option<Result<&T, CycleErr>> {
+        #[cfg(capy_verif)]
+        verif::log("peek", Vec::new(), self.top.len());
         let result = self
             .top
             .iter()
@@ -171,6 +293,8 @@ impl<T: Hash + Eq + Clone> TopoSort<T> {
 
     /// Returns a reference to all the items with no open dependencies.
     pub fn peek_all(&self) -> Result<Vec<&T>, CycleErr> {
+        #[cfg(capy_verif)]
+        verif::log("peek_all", Vec::new(), self.top.len());
         let result: Vec<_> = self
             .top
             .iter()
@@ -188,6 +312,8 @@ impl<T: Hash + Eq + Clone> TopoSort<T> {
     /// Returns true if the only items left are all cyclic.
     #[inline]
     pub fn in_cycle(&self) -> bool {
+        #[cfg(capy_verif)]
+        verif::log("in_cycle", Vec::new(), self.top.len());
         !self.is_empty() && self.top.values().all(|v| v.num_children != 0)
     }
 
@@ -212,6 +338,8 @@ impl<T: Hash + Eq + Clone> TopoSort<T> {
     /// If there are no cyclic dependencies, or there are still some non-cyclic
     /// dependencies, returns None.
     pub fn pop_all_cyclic(&mut self) -> Option<Vec<T>> {
+        #[cfg(capy_verif)]
+        verif::log("pop_all_cyclic", Vec::new(), self.top.len());
         if self.in_cycle() {
             let result = self.top.keys().cloned().collect();
 
@@ -228,6 +356,8 @@ impl<T: Hash + Eq + Clone> TopoSort<T> {
     /// If there are no cyclic dependencies, or there are still some non-cyclic
     /// dependencies, returns None.
     pub fn peek_cyclic(&self) -> Option<&T> {
+        #[cfg(capy_verif)]
+        verif::log("peek_cyclic", Vec::new(), self.top.len());
         if self.in_cycle() {
             self.top.keys().next()
         } else {
@@ -240,6 +370,8 @@ impl<T: Hash + Eq + Clone> TopoSort<T> {
     /// If there are no cyclic dependencies, or there are still some non-cyclic
     /// dependencies, returns None.
     pub fn peek_all_cyclic(&self) -> Option<Vec<&T>> {
+        #[cfg(capy_verif)]
+        verif::log("peek_all_cyclic", Vec::new(), self.top.len());
         if self.in_cycle() {
             Some(self.top.keys().collect())
         } else {
@@ -249,6 +381,11 @@ impl<T: Hash + Eq + Clone> TopoSort<T> {
 
     /// Removes a dependency from the list, returns true if the dependency existed
     pub fn remove(&mut self, child: &T) -> bool {
+        #[cfg(capy_verif)]
+        {
+            let args = vec![self.verif_id(child)];
+            verif::log("remove", args, self.top.len());
+        }
         // todo: maybe replace this with swap_remove
         let result = self.top.shift_remove(child);
 
@@ -267,6 +404,8 @@ impl<T: Hash + Eq + Clone> TopoSort<T> {
 
     #[inline]
     pub fn clear(&mut self) {
+        #[cfg(capy_verif)]
+        verif::log("clear", Vec::new(), self.top.len());
         self.top.clear();
     }
 }
